@@ -70,6 +70,8 @@ def realloc (p : Ptr) : Prog Ptr := .realloc p .ret
 def free (p : Ptr) : Prog Unit := .free p (.ret ())
 /-- The code reads or writes `*p`. -/
 def deref (p : Ptr) : Prog Unit := .deref p (.ret ())
+/-- `if (c) … *p …` -/
+def derefWhen (c : Bool) (p : Ptr) : Prog Unit := if c then deref p else pure ()
 /-- Any other undefined behaviour of the C code. -/
 def ub (what : String) : Prog α := .ub what
 
